@@ -10,6 +10,7 @@ import Driver.Core
 import Driver.Mpd
 import Driver.Fault
 import Driver.Cfg
+import Driver.Keys
 /-! Line-protocol driver: one operation per input line, one canonical result per output line. -/
 open Drv
 
@@ -145,6 +146,13 @@ def step (st : DState2) (line : String) : DState2 × String :=
   | "mpddef" :: args => defMpd st args
   | "mpd" :: args => (st, opMpd st args)
   | "cfg" :: args => (st, opCfg args)
+  | "req" :: args => (st, opReq args)
+  | "kid" :: args => (st, opKeys "kid" args)
+  | "k2k" :: args => (st, opKeys "k2k" args)
+  | "key2kid" :: args => (st, opKeys "key2kid" args)
+  | "b64" :: args => (st, opKeys "b64" args)
+  | "unb64" :: args => (st, opKeys "unb64" args)
+  | "lic" :: args => (st, opKeys "lic" args)
   | "loss" :: args => (st, opLoss args)
   | "stat" :: args => (st, opStat st.core args)
   | _ => (st, "bad-op")
